@@ -11,7 +11,14 @@
      8  = F-GROUP-FIRST-MISSING  $first/$last skip the documents in which the expression is
                             missing instead of answering null for them
      16 = F-PROJECT-ID-FIRST a $project that lists a truthy _id before the excluded fields is
-                            read as an inclusion and rejected *)
+                            read as an inclusion and rejected
+     32 = F-MATCH-NONDOC-EMPTY  a $match whose filter is not a document is only rejected when a
+                            document reaches it: on an empty input it answers [] (Refuted/C03.v)
+     64 = F-SORT-EMPTY-SPEC    {$sort: {}} is accepted as "no sort" instead of being rejected
+     128 = F-SORT-EMPTY-COMPONENT  a $sort key whose last dotted component is empty ("" or "a."):
+                            the documents are ordered by the whole parent (the finding of C11)
+     256 = F-UNWIND-OPTION     a $unwind option document with a name other than path,
+                            preserveNullAndEmptyArrays, includeArrayIndex is accepted *)
 From Coq Require Import ZArith List String Bool Ascii.
 From Verif Require Import Value PyEq BsonOrder Path Update Filter FilterSpec FilterGuard Coll
      Expr ExprSpec ExprGuard Pipeline PipelineSpec.
@@ -36,7 +43,21 @@ Definition key_of_model (e : value) (d : value) : option value :=
   match eval [] d true e with EV v => Some v | EMiss => Some VNull | EE _ => None end.
 
 Definition stage_reasons (db : dbmap) (op : string) (o : value) (l : list value) : Z :=
-  if op =? "$match" then zb (existsb (filter_finding o) l) 1
+  if op =? "$match" then
+    Z.lor (zb (existsb (filter_finding o) l) 1)
+          (zb (match o with VDoc _ => false | _ => match l with [] => true | _ => false end end) 32)
+  else if op =? "$sort" then
+    match o with
+    | VDoc [] => 64
+    | VDoc fs => zb (existsb (fun kv => ends_empty (split_dots (fst kv))) fs) 128
+    | _ => 0
+    end
+  else if op =? "$unwind" then
+    match o with
+    | VDoc fs => zb (negb (forallb (fun kv => mem_str (fst kv)
+                                     ["path"; "preserveNullAndEmptyArrays"; "includeArrayIndex"]) fs)) 256
+    | _ => 0
+    end
   else if (op =? "$addFields") || (op =? "$set") then
     match o with
     | VDoc fs => zb (existsb (fun kv => expr_finding (snd kv) l) fs) 2
